@@ -1,9 +1,13 @@
 """C19 - streaming content decoding equals one-shot decoding for every split.
 
-Proof: coq/Props/C19.v (for every zlib machine, kind and split).  Tie: the
-hand-written model coq/Model/Decomp.v is run (vm_compute) with the abstract zlib
-instantiated by a per-prefix table recorded from the real zlib, and compared
-with wpull's real decoder classes on the same (kind, pieces)."""
+Proof: coq/Props/C19.v (for every zlib machine, kind, split, Content-Encoding
+value and segmentation oracle).  Tie: the hand-written models are run (vm_compute)
+ - coq/Model/Decomp.v with the abstract zlib instantiated by a per-prefix table
+   recorded from the real zlib, against wpull's real decoder classes;
+ - coq/Model/DecompGlue.v with the same tables and the read log of the run,
+   against the real Stream.read_response + read_body over harness/fakes/conn.py;
+ - coq/Model/DecompWrap.v (concrete zlib/gzip framing over the real raw
+   inflater's table) against the real zlib.decompressobj(15)/(31), byte for byte."""
 import gzip
 import zlib
 
@@ -15,15 +19,33 @@ THEOREMS = ['C19_split_invariant', 'C19_matches_reference', 'C19_truncated_or_co
             'C19_stream_glue', 'C19_stream_glue_wire', 'C19_stream_glue_short_is_error', 'C19_content_encoding_selection',
             'C19_data_after_end_marker_ignored', 'C19_zlib_sniff_shape',
             'C19_wrapped_gzip_success', 'C19_wrapped_zlib_success', 'C19_sniff_agrees_with_zlib',
-            'C19_wrapped_data_after_end_marker_ignored']
+            'C19_wrapped_data_after_end_marker_ignored', 'C19_gzip_uncompress',
+            'C19_first_piece_nonempty_suffices', 'C19_empty_first_piece_refuted']
 TRUSTED = [
-    'zlib is modelled as an arbitrary byte-at-a-time machine (Section variables of Model/Decomp.v): '
-    'its output/error/eof after a prefix is a function of that prefix - sampled against the real zlib on every case',
-    'hand-written model Model/Decomp.v of wpull/decompression.py, tied by the vm_compute correspondence of this run',
+    'the RAW inflater of zlib is modelled as an arbitrary byte-at-a-time machine (Section variables): its output/error/eof after a '
+    'prefix is a function of that prefix - sampled against the real zlib on every case; the zlib (RFC 1950) and gzip (RFC 1952) '
+    'framing, Adler-32 and CRC-32 are concrete Gallina (Model/DecompWrap.v), compared byte for byte with the real '
+    'zlib.decompressobj(15)/(31) on every run; the split/reference theorems hold for EVERY zlib machine and do not depend on that model',
+    'hand-written models Model/Decomp.v (wpull/decompression.py) and Model/DecompGlue.v (_setup_decompressor, _decompress_data, '
+    '_flush_decompressor, the three body loops of http/stream.py, gzip_uncompress), tied by the vm_compute correspondence of this run '
+    'against the real decoder classes and the real Stream.read_response + read_body over harness/fakes/conn.py',
+    'Lib/Conn.v as the model of Connection.read (1..n bytes unless EOF; the reads of every run are replayed through list_oracle); '
+    'for chunked bodies the VALUE of each chunk-size line is an input of the model (parsing it is C08\'s subject), as is the choice '
+    'of read strategy (get_read_strategy / int(Content-Length))',
 ]
 ASSUMPTIONS = [
-    'zlib.decompressobj output, error status and eof after consuming a prefix depend only on the prefix (sampled: piecewise == bytewise == one-shot on every generated case)',
-    'pieces handed to the decoder are non-empty (http/stream.py stops on an empty read)',
+    'zlib.decompressobj output, error status and eof after consuming a prefix depend only on the prefix, for wbits 31/15/-15 '
+    '(sampled: piecewise == bytewise == one-shot on every generated body); flush() after decompress() returns nothing more',
+    'pieces handed to the decoder are non-empty: proved for the three reader models (Forall nonempty in close/length/chunk_pieces_spec) '
+    'and checked on every glue case (no empty piece reaches _decompress_data)',
+    'premise of C19_data_after_end_marker_ignored - once eof is set every further byte is swallowed (no output, no error, eof stays, '
+    'flush empty): sampled bytewise on every body that reaches its end marker; PROVED for the concrete wrappers '
+    '(C19_wrapped_data_after_end_marker_ignored)',
+    'str.lower(): an ASCII capital lowers to its small letter and the lower() of any non-ASCII code point contains a character '
+    'outside "gzipdeflate" - checked exhaustively over all 1 114 112 code points on every run',
+    'zlib.decompressobj(15) and (31) behave as Model/DecompWrap.v over the real raw inflater (error index, eof, output per byte): '
+    'compared on every generated body incl. header variants (FEXTRA/FNAME/FCOMMENT/FHCRC, reserved flags, wrong method/magic, '
+    'FDICT, bad FCHECK, CINFO > 7), corrupt checksums, truncations and random garbage',
 ]
 
 KINDS = ['KGzip', 'KDeflate', 'KIdentity']
@@ -65,11 +87,11 @@ def _near_headers():
 NEAR = _near_headers()
 
 
-def _raw_lookalike(r, payload, near=False):
+def _raw_lookalike(r, payload, near=False, hdr=None):
     """a VALID raw deflate stream (non-final stored block with a non-zero padding bit, then a
     normal final part) whose first two bytes pass the RFC 1950 header check - or, with near=True,
     just fail it (CINFO > 7 / FDICT / FCHECK off by one).  Returns (stream, content)."""
-    c, f = r.choice(NEAR if near else [x for x in ZLIB_HEADERS if x[1] < 100])
+    c, f = hdr or r.choice(NEAR if near else [x for x in ZLIB_HEADERS if x[1] < 100])
     content = ((payload or b'\x00') * (f + 1))[:f]
     nlen = f ^ 0xffff
     co = zlib.compressobj(r.randrange(10), zlib.DEFLATED, -15)
@@ -201,6 +223,54 @@ def generate(r, n_bodies, max_len=150, n_extra=2):
     return cases
 
 
+def generate_sniff(r, all_splits):
+    """the two-byte zlib-or-raw decision, systematically: every one of the 32 RFC 1950 headers in
+    front of a zlib stream (must decode), every near-miss prefix (CINFO > 7, FDICT, FCHECK off by
+    one) and every short-LEN real header as the start of a VALID raw deflate stream"""
+    cases = []
+
+    def add(kind, body, tag, expect):
+        n = len(body)
+        splits = [[body], [body[:1], body[1:]], [body[i:i + 1] for i in range(n)], [body[:2], body[2:]]]
+        for ps in (splits if all_splits else [r.choice(splits)]):
+            cases.append({'kind': kind, 'pieces': [p.hex() for p in ps], 'tag': tag, 'truncated': False, 'tables': True})
+            if expect is not None:
+                cases[-1]['expect'] = expect.hex()
+    for c, f in ZLIB_HEADERS:
+        payload = _payload(r)[:40]
+        add('KDeflate', bytes([c, f]) + zlib.compress(payload, r.randrange(10))[2:], 'sniff-zlib-rehdr', payload)
+    for hdr in NEAR:
+        body, content = _raw_lookalike(r, _payload(r)[:30], hdr=hdr)
+        add('KDeflate', body, 'sniff-raw-nearlookalike', content)
+    for hdr in [x for x in ZLIB_HEADERS if x[1] < 100]:
+        body, content = _raw_lookalike(r, _payload(r)[:30], hdr=hdr)
+        add('KDeflate', body, 'sniff-raw-lookalike', None)
+    return cases
+
+
+def generate_empty_pieces(r, n):
+    """pieces lists WITH empty pieces (the stream readers never produce them; the decoder classes and the
+    model are still compared on them): after a non-empty first piece they must be harmless
+    (C19_first_piece_nonempty_suffices); an empty first piece is the documented exception
+    (C19_empty_first_piece_refuted) and only compared model-vs-implementation"""
+    cases = []
+    while len(cases) < n:
+        kind, body, tag, complete, expect = _encode(r, _payload(r))
+        if len(body) > 120 or len(body) < 2:
+            continue
+        k = r.randrange(1, 4)
+        cuts = sorted(set(r.randrange(1, len(body)) for _ in range(k)))
+        ps = [body[a:b] for a, b in zip([0] + cuts, cuts + [len(body)])]
+        first = r.random() < 0.3
+        for _ in range(r.randrange(1, 4)):
+            ps.insert(r.randrange(1, len(ps) + 1), b'')
+        if first:
+            ps.insert(0, b'')
+        cases.append({'kind': kind, 'pieces': [p.hex() for p in ps], 'tag': 'emptypiece-' + ('first-' if first else 'later-') + tag,
+                      'truncated': False, 'tables': True})
+    return cases
+
+
 def _coq_tab(t):
     rows = '; '.join('(%s, %s, %d%%nat)' % ('true' if e else 'false', 'true' if f else 'false', k) for e, f, k in t['rows'])
     return '{| zt_rows := [%s]; zt_out := unhex "%s" |}' % (rows, t['out'])
@@ -210,15 +280,25 @@ def _coq_case(case, res):
     exp = 'None' if res['stream'] is None else 'Some (unhex "%s")' % res['stream']
     pieces = '[' + '; '.join('unhex "%s"' % p for p in case['pieces']) + ']'
     t = res['tables']
-    return ('opt_list_eqb (tab_run %s %s %s %s %s) (%s)' % (
-        _coq_tab(t['W31']), _coq_tab(t['W15']), _coq_tab(t['WRaw']), case['kind'], pieces, exp))
+    k = case['kind']     # only the tables the selected decoder can consult (a wrong guess shows up as a disagreement)
+    main = ('opt_list_eqb (tab_run %s %s %s %s %s) (%s)' % (
+        _coq_tab(t['W31']) if k == 'KGzip' else 'T0', _coq_tab(t['W15']) if k == 'KDeflate' else 'T0',
+        _coq_tab(t['WRaw']) if k == 'KDeflate' else 'T0', k, pieces, exp))
+    if k == 'KGzip' and res.get('gunzip') and len(case['pieces']) == 1:     # gzip_uncompress: once per body
+        body = case['pieces'][0]
+        for flag, g in zip(('false', 'true'), res['gunzip']):
+            if g is None or not g.startswith('exception'):
+                main += '\n    && opt_list_eqb (tab_gzip_uncompress %s (unhex "%s") %s) (%s)' % (
+                    _coq_tab(t['W31']), body, flag, 'None' if g is None else 'Some (unhex "%s")' % g)
+    return main
 
 
 HEADER = '''From Coq Require Import List NArith Bool String.
-From Wpull Require Import Lib.Hex Model.Decomp.
+From Wpull Require Import Lib.Hex Model.Decomp Model.DecompGlue.
 Import ListNotations.
 Open Scope string_scope.
 Open Scope N_scope.
+Definition T0 : ztab := {| zt_rows := []; zt_out := [] |}.
 '''
 
 
@@ -497,7 +577,7 @@ def _glue_violations(cases, results):
     return out
 
 
-GLUE_HEADER = HEADER.replace('Model.Decomp.', 'Lib.Conn Model.Decomp Model.DecompGlue.') + r"""
+GLUE_HEADER = HEADER.replace('Model.Decomp Model.DecompGlue.', 'Lib.Conn Model.Decomp Model.DecompGlue.') + r"""
 Definition gerr_eqb (a b : gerr) : bool :=
   match a, b with
   | GProtocolErr, GProtocolErr | GNetworkErr, GNetworkErr | GValueErr, GValueErr => true
@@ -517,7 +597,6 @@ Fixpoint pieces_ok (all : bool) (model recorded : list (list N)) : bool :=
   | _ :: _, [] => false
   | x :: r, y :: m => list_eqb x y && pieces_ok all m r
   end.
-Definition T0 : ztab := {| zt_rows := []; zt_out := [] |}.
 """
 
 
@@ -552,8 +631,8 @@ def _coq_glue_case(case, res):
 
 
 def glue_correspondence(ctx, r):
-    n_msgs = 70 if not ctx.thorough else 1500
-    cases = generate_glue(r, n_msgs, big=3 if not ctx.thorough else 30)
+    n_msgs = 60 if not ctx.thorough else 1500
+    cases = generate_glue(r, n_msgs, big=2 if not ctx.thorough else 30)
     results, lower = _glue_impl(cases)
     disagreements = []
     if not lower or lower.get('bad'):
@@ -596,7 +675,7 @@ def glue_correspondence(ctx, r):
 # ---------------------------------------------------------------------------
 # the concrete zlib / gzip wrappers of Model/DecompWrap.v vs the real zlib, byte for byte
 # ---------------------------------------------------------------------------
-WRAP_HEADER = HEADER.replace('Model.Decomp.', 'Model.Decomp Model.DecompWrap.') + r"""
+WRAP_HEADER = HEADER.replace('Model.Decomp Model.DecompGlue.', 'Model.Decomp Model.DecompWrap.') + r"""
 Fixpoint rows_eqb (a b : list (bool * bool * nat)) : bool :=
   match a, b with
   | [], [] => true
@@ -605,7 +684,6 @@ Fixpoint rows_eqb (a b : list (bool * bool * nat)) : bool :=
   end.
 Definition tab_eqb (x : list (bool * bool * nat) * list N) (t : ztab) : bool :=
   rows_eqb (fst x) (zt_rows t) && list_eqb (snd x) (zt_out t).
-Definition T0 : ztab := {| zt_rows := []; zt_out := [] |}.
 """
 
 
@@ -694,8 +772,18 @@ def _property_on_impl(case, res):
         lenient = case['tag'].endswith('-junk') or case['tag'] == 'gzip-multi'
         if not (lenient and (res['oneshot'] is None or (case['tag'] == 'gzip-multi' and res['oneshot'] == _all_members(case)))):
             return 'wrong-content'
-    if res['stream'] != res['oneshot']:
+    if res['stream'] != res['oneshot'] and not case['tag'].startswith('emptypiece-first'):
         return 'split-dependence'
+    if any(isinstance(res.get(k), str) and res[k].startswith('exception') for k in ('stream', 'oneshot', 'glue')):
+        return 'unexpected-exception'
+    g = res.get('gunzip')
+    if g:
+        body = bytes.fromhex(''.join(case['pieces']))
+        full = _py_whole(31, body)
+        if g[0] != (None if full is None else full.hex()):
+            return 'gzip_uncompress-differs-from-oneshot'
+        if g[1] is not None and g[1].startswith('exception'):
+            return 'unexpected-exception'
     if res['glue'] != res['stream']:
         return 'stream-glue-differs'
     if case.get('truncated') and res['stream'] is not None:
@@ -724,7 +812,7 @@ def _violations(cases, results):
 def correspondence(ctx):
     r = common.rng('c19')
     n_bodies = 60 if not ctx.thorough else 1500
-    cases = generate(r, n_bodies)
+    cases = generate(r, n_bodies) + generate_sniff(r, ctx.thorough) + generate_empty_pieces(r, 40 if not ctx.thorough else 600)
     # exhaustive splits of a few short bodies (every composition of the body)
     shorts = [('KGzip', gzip.compress(b'hi', 1, mtime=0)[:11]), ('KDeflate', zlib.compress(b'a', 9)),
               ('KDeflate', zlib.compress(b'a', 9)[2:-4]), ('KGzip', b'\x1fplain'), ('KDeflate', b'\x78')]
@@ -838,11 +926,24 @@ def replay(ctx, data):
     res = _impl([case])[0]
     return _property_on_impl(case, res) is not None
 
-LEVEL_TEXT = ('Coq theorems C19_split_invariant, C19_matches_reference and C19_truncated_or_corrupt_is_error hold for EVERY zlib machine, '
-              'decoder kind and split into non-empty pieces (induction over the piece list, no bound); closed under the global context. '
-              'The model of wpull/decompression.py is hand-written and tied to the code on every run by evaluating it inside Coq (vm_compute) '
-              'against the real decoder classes and the http Stream glue on generated (kind, body, split) cases.')
-LEVEL_NOTE = ('Trusted: Coq kernel + vm_compute; zlib abstracted as a byte-at-a-time machine (prefix-determinism sampled against the real zlib every run); '
-              'the hand-written model and the correspondence harness; non-empty pieces. "Corrupt" is relative to what the decoder recognises as compressed: '
-              'a gzip-declared body not starting with 0x1F is passed through by documented design.')
-TECHNIQUE = 'Coq proof by induction over the piece list for an abstract zlib machine; vm_compute correspondence with table-driven zlib instance'
+LEVEL_TEXT = ('Coq theorems, all closed under the global context, no bound on sizes or splits: (1) C19_split_invariant, C19_matches_reference, '
+              'C19_truncated_or_corrupt_is_error - for EVERY zlib machine, decoder kind and split into non-empty pieces the streaming run equals the one-shot '
+              'run and the declarative reference, and success implies zlib consumed everything and saw its end marker; (2) C19_stream_glue, '
+              'C19_stream_glue_wire, C19_stream_glue_short_is_error, C19_content_encoding_selection - the glue of http/stream.py: for every Content-Encoding '
+              'value, every segmentation oracle and each of the three body readers (until-close, Content-Length incl. overrun cut, well-framed chunked) the '
+              'file content is the reference decoding of the entity body under the decoder that value selects (exactly gzip/deflate up to ASCII case), a '
+              'decoding failure is ProtocolError, a short length-delimited body is never a success; (3) C19_data_after_end_marker_ignored (multi-member gzip, '
+              'trailing garbage: only the first member, in both modes), C19_zlib_sniff_shape; (4) over CONCRETE zlib/gzip framing, Adler-32 and CRC-32 with '
+              'only the raw inflater abstract: C19_wrapped_gzip_success / C19_wrapped_zlib_success (whatever is returned for a recognised body carries a '
+              'matching checksum and length; a 0x1f-led non-gzip body is an error), C19_sniff_agrees_with_zlib, C19_wrapped_data_after_end_marker_ignored; '
+              '(5) C19_gzip_uncompress. The hand-written models are tied to the code on every run by vm_compute evaluation against the real decoder classes, '
+              'the real Stream.read_response + read_body over a scripted connection, and the real zlib byte for byte.')
+LEVEL_NOTE = ('Trusted: Coq kernel + vm_compute; the raw inflater abstracted as a byte-at-a-time machine (prefix-determinism sampled every run); the concrete '
+              'wrapper model of zlib\'s framing (compared with the real library every run, not proved about C code); the hand-written models and the '
+              'correspondence harness; Lib/Conn as the model of Connection.read. Chunk-size parsing, read-strategy choice, header parsing, trailers and '
+              'raw=True with chunked coding are outside these models (C08). "Corrupt" is relative to what the decoder recognises as compressed: a '
+              'gzip-declared body not starting with 0x1F is passed through by documented design; data after the end marker (further gzip members, garbage) '
+              'is ignored in both modes, as zlib.decompress does; "x-gzip" and token lists select no decoder. The scraper side (document/sitemap.py via '
+              'gzip.GzipFile) is not covered.')
+TECHNIQUE = ('Coq proof by induction over the piece list / the read loop for an abstract zlib machine and every segmentation oracle; concrete Gallina '
+             'zlib/gzip wrappers with checksum theorems; vm_compute correspondence with table-driven zlib instances and replayed read logs')
